@@ -373,3 +373,14 @@ def analyse_tu(eng, cfg):   # noqa: F811
     res['reports'] += list(sr.reports.values())
     res['shrink_paths'] = sr.paths
     return res
+
+
+def analyse_tu_shrink(eng, cfg):
+    """R02.5 alone (used on the NDEBUG flavour: there the header's asserts do not cut the paths on
+    which an internal consistency assert would fail, so the resulting state itself is judged)."""
+    sr = ShrinkRule(eng, cfg)
+    for f in irrules.gch_roots(eng):
+        head = (f.pretty or '').split('(')[0]
+        if base_name(f.pretty) == 'shrink_to_fit' and 'gch::small_vector<' in head and 'detail::' not in head:
+            eng.walk(f, [sr])
+    return {'reports': list(sr.reports.values()), 'shrink_paths': sr.paths}
